@@ -115,4 +115,46 @@ theorem replay_of_a_legal_game (h : Hasher) (ms : List Spec.Move) (p : Pos) (wf 
     ∃ r, replayPos h p (ms.map uciText) = some r ∧ abs r = ms.foldl Spec.apply (abs p) ∧ WFp r ∧ Inv h r :=
   replay_aux h ms p (abs p) rfl wf hinv hl
 
+
+/-! ### the `position` command itself -/
+
+theorem defaultFen_is_canonical : Gen.defaultFen.toList = canonText (abs startPosition) ['0'] ['1'] := by
+  rw [start_canonical_text]; decide
+
+/-- `position startpos moves m1 … mn` with a legal game, for EVERY hasher: whenever the command is
+    served (the only way out is a repetition count above 255), the engine holds exactly the position the
+    rules give after the game, well-formed, with an exact key -/
+theorem position_startpos_holds_the_game (h : Hasher) (ms : List Spec.Move) (hl : LegalSeq (abs startPosition) ms)
+    (p : Pos) (t : DrawTable)
+    (hp : playOutPosition h (["position".toList, "startpos".toList, "moves".toList] ++ ms.map uciText) = some (p, t)) :
+    abs p = ms.foldl Spec.apply (abs startPosition) ∧ WFp p ∧ Inv h p := by
+  have hsz : (abs startPosition).cells.size = 64 := by decide +kernel
+  have hep : ∀ e, (abs startPosition).ep = some e → InB e := by
+    intro e he
+    have : (abs startPosition).ep = none := by decide +kernel
+    rw [this] at he; cases he
+  obtain ⟨p0, hload, habs0, hwf0⟩ := every_position_loads_from_its_fen h (abs startPosition) hsz hep ['0'] ['1']
+    ⟨by decide, by decide, by decide⟩ ⟨by decide, by decide, by decide⟩
+  obtain ⟨wf0, inv0⟩ := hwf0 (LP_of _ start_legal)
+  rw [← defaultFen_is_canonical] at hload
+  unfold playOutPosition at hp
+  have h1 : (["position".toList, "startpos".toList, "moves".toList] ++ ms.map uciText)[1]? = some "startpos".toList := rfl
+  rw [h1] at hp
+  have hnf : ¬ ("startpos".toList = "fen".toList) := by decide
+  simp only [hnf, if_false, hload] at hp
+  have hidx : (["position".toList, "startpos".toList, "moves".toList] ++ ms.map uciText).findIdx? (· = "moves".toList) = some 2 := by
+    have e1 : ("position".toList = "moves".toList) = False := by decide
+    have e2 : ("startpos".toList = "moves".toList) = False := by decide
+    simp only [List.cons_append, List.nil_append, List.findIdx?_cons, e1, e2, decide_false, decide_true,
+      Bool.false_eq_true, if_false, if_true, Option.map_some]
+  rw [hidx] at hp
+  have hdrop : (["position".toList, "startpos".toList, "moves".toList] ++ ms.map uciText).drop (2 + 1) = ms.map uciText := rfl
+  simp only [hdrop] at hp
+  have hrep := playMoves_position h p0 _ _ p t hp
+  obtain ⟨r, hr, habs, hwf, hinv⟩ := replay_of_a_legal_game h ms p0 wf0 inv0 (by rw [habs0]; exact hl)
+  rw [hr] at hrep
+  injection hrep with hrep
+  subst hrep
+  exact ⟨by rw [habs, habs0], hwf, hinv⟩
+
 end Walleye
